@@ -622,14 +622,14 @@ def judge_mode_geo1(case):
 
 
 SUBS = [
-    Sub("geo1_tables", judge_geo1, geo1_case(), quick=400, thorough=6000,
+    Sub("geo1_tables", judge_geo1, geo1_case(), quick=400, thorough=18000,
         rule="check_on_geo1 / def_geo1 (DataFrame and documented array arguments) on valid table sets: names flattened, rows re-ordered to the names, indices zero-based, absent sheets None"),
-    Sub("geo2_tables", judge_geo2, geo2_case(), quick=400, thorough=6000,
+    Sub("geo2_tables", judge_geo2, geo2_case(), quick=400, thorough=18000,
         rule="check_on_geo2 / def_geo2 on valid table sets with every combination of optional sheets: outputs as specified, NaN mapping cells -> 0, constraint columns aligned to the names"),
-    Sub("corruptions", judge_corrupt, corrupt_case(), quick=1200, thorough=12000,
+    Sub("corruptions", judge_corrupt, corrupt_case(), quick=1200, thorough=36000,
         rule="every single-fault corruption of a valid table set (13 fault kinds per geometry) raises ValueError and defines no geometry"),
-    Sub("mapping", judge_mapping, geo2_case(), quick=100, thorough=3000,
+    Sub("mapping", judge_mapping, geo2_case(), quick=100, thorough=9000,
         rule="gen.dfphi_map_func: cell = phi of the named sensor, constraint row . phi for constraint names, 0 elsewhere; plot_mode_geo2_mpl draws points + mapped*sign*scale"),
-    Sub("mode_geo1", judge_mode_geo1, geo1_case(), quick=60, thorough=1500,
+    Sub("mode_geo1", judge_mode_geo1, geo1_case(), quick=60, thorough=4500,
         rule="plot_mode_geo1 (Agg): arrow k starts at the coordinates of sensor k and ends at + direction*phi_k*scale"),
 ]
